@@ -33,9 +33,9 @@ BetweenAtoms == { A("size", "between", IntL(9), IntL(11), "int/between"), A("siz
                   A("length(name)", "between", IntL(4), IntL(5), "int/between") }
 
 (* W2x: W2 plus a name with two 2-byte characters (6 characters, 8 bytes) and sizes on and between 10^6 and 2^20 (sparse files) *)
-Big(i, nm, sz) == N(i, 0, "file", nm, <<>>, 420, 0, 0, T0 + 90000 + i, 0, -3) @@ [bigsize |-> sz]
+Big(i, nm, sz, szn) == N(i, 0, "file", nm, <<>>, 420, 0, 0, T0 + 90000 + i, 0, -3) @@ [bigsize |-> sz, bign |-> szn]     \* (bign: the same size as a number, for the Mech check)
 W2x == [nodes |-> W2.nodes \o << N(15, 0, "file", <<"r","é","ż",".","m","d">>, Runs(5, 1), 420, 0, 0, T0 + 90000, 0, -3),
-                                  Big(16, <<"m","1">>, "1000000"), Big(17, <<"m","2">>, "1020000"), Big(18, <<"m","3">>, "1048576") >>]
+                                  Big(16, <<"m","1">>, "1000000", 1000000), Big(17, <<"m","2">>, "1020000", 1020000), Big(18, <<"m","3">>, "1048576", 1048576) >>]
 Names == { W2.nodes[i].namec : i \in 1 .. Len(W2.nodes) }
 Exts == { <<"t","x","t">>, <<"l","o","g">>, <<"b","i","n">>, <<>>, <<"t","x">>, <<"z","i","p">> }
 TextLits(col) ==
